@@ -41,6 +41,11 @@ def stores(b):
 
 
 def run(ctx):
+    _run(ctx)
+    check_mark_values(ctx, ctx.facts())
+
+
+def _run(ctx):
     ctx.level = "proof"
     ctx.decides = ("anonymize_scalar keeps every value's variant (and an Unknown value's type code); anonymize_operation stores only into the payload of the op's existing action / key variant and rebuilds pred by a plain map; "
                    "anonymize iterates the change list and every op list without resizing or filtering, applies every change and maps every dependency (missing -> error); map_op_id / map_object_id store only the actor part.")
@@ -50,6 +55,7 @@ def run(ctx):
     ctx.rule("A3", "anonymize: no resizing call on the change list or an op list, no filtering adaptor between a list and its consumer, apply_changes on every iteration, deps mapped with ok_or(error)")
     ctx.rule("A4", "map_op_id / map_object_id store only into the actor part of an id")
     ctx.rule("A5", "actor_map: the rank of an actor is written into the replacement id with to_be_bytes (byte-wise order of the new ids = order of the old ones, for any number of actors)")
+    ctx.rule("A7", "anonymize_operation: the value of a MarkBegin is replaced through anonymize_mark_value (one-to-one: a memo of replaced values, retried against the used ones), never directly through anonymize_scalar: equality of mark values decides the spans marks() reports")
     ctx.rule("A6", "anonymize_content_string: a one-byte synthetic replacement is used only on the true edge of char::is_ascii (a replacement keeps the UTF-8 width of the character)")
     f = ctx.facts()
     # ---------------- A1
@@ -222,3 +228,33 @@ def run(ctx):
         ok = bool(ascii_true) and cb.edges_dominate(ascii_true, bi)
         ctx.ob("A6", k, ok, t["sp"], "only for ASCII characters" if ok else
                "a character that is not known to be ASCII is replaced by a one-byte character: the replacement string is narrower in UTF-8 than the original (text widths and value lengths change)")
+
+
+def check_mark_values(ctx, f):
+    AO = [p for p in f.fns if norm_fn(p).endswith("anonymize::Anonymization::anonymize_operation")]
+    MV = [p for p in f.fns if norm_fn(p).endswith("anonymize::Anonymization::anonymize_mark_value")]
+    if len(AO) != 1:
+        raise facts.AnchorMissing("Anonymization::anonymize_operation")
+    b = cfg.body(f.fns[AO[0]])
+    ctx.analysed_fns.add(AO[0])
+    # the MarkBegin arm: blocks dominated by the MarkBegin edge of the switch on the op's action
+    arm = []
+    for sb, sw in b.switches():
+        src = b.bool_operand_source(sw["op"])
+        if src and src["kind"] == "discr" and (src.get("ty") or "").endswith("OpType"):
+            arm += [(sb, tb) for v, tb in sw["targets"] if (src["vars"] or {}).get(v) == "MarkBegin"]
+    ctx.floor("MarkBegin arms in anonymize_operation", len(arm), 1)
+    in_arm = lambda bi: any(b.edges_dominate([e], bi) for e in arm)
+    direct = [(bi, t) for bi, t in b.calls() if (callee(t) or "").endswith("Anonymization::anonymize_scalar") and in_arm(bi)]
+    memo = [(bi, t) for bi, t in b.calls() if (callee(t) or "").endswith("Anonymization::anonymize_mark_value") and in_arm(bi)]
+    ok = bool(memo) and not direct
+    ctx.ob("A7", "anonymize_operation|mark values replaced one-to-one", ok, (direct[0][1]["sp"] if direct else b.rec["sp"]),
+           "through anonymize_mark_value" if ok else
+           "each occurrence of a mark value gets an independent replacement: two overlapping marks with the same value stop being equal and the span marks() reports splits (or distinct values collide and spans merge)")
+    if len(MV) == 1:
+        m = cfg.body(f.fns[MV[0]])
+        ctx.analysed_fns.add(MV[0])
+        reads = any(".mark_values" in "".join(m.origin(l, pr)[1]) for _, t in m.calls() for a in t.get("args", []) for l, pr in m.provenance(a, through_calls=False).places)
+        pushes = any((norm_fn(t.get("fn")) or "").endswith("Vec::push") for _, t in m.calls())
+        ctx.ob("A7", "anonymize_mark_value|memo consulted and extended", reads and pushes, m.rec["sp"], "looks the value up and records the replacement" if reads and pushes else
+               "the replacement of a mark value is not remembered: equal values are replaced independently")
